@@ -255,6 +255,8 @@ def gen_history(rng, n, etags):
         elif k < 0.70:
             to_c = rng.choice([c, c, rng.choice(colls)])
             to = rng.choice([to_c + (rng.choice([100, 101, 103, 200]),), to_c])
+            if uploaded and rng.random() < 0.45:
+                to = rng.choice(uploaded)              # onto an existing item, possibly of another collection / type
             r = ("RMove", rng.choice([item, item, item, c]), rng.random() < 0.93, to, rng.random() < 0.6)
         elif k < 0.77:
             x = rng.choice([("XProps", ("TRNone",), [(1, rng.randrange(3))]), ("XProps", ("TRNone",), [(1, None), (3, 2)]),
